@@ -15,12 +15,22 @@ type InjectedFault struct{ K int }
 
 func (f *InjectedFault) Error() string { return fmt.Sprintf("injected fault #%d", f.K) }
 
+// CallbackError is what an application's callback typically returns: its own error type around the cause.
+type CallbackError struct {
+	Op  string
+	Err error
+}
+
+func (e *CallbackError) Error() string { return e.Op + ": " + e.Err.Error() }
+func (e *CallbackError) Unwrap() error { return e.Err }
+
 // Spies counts callback invocations and can fail the n-th fallible invocation.
 type Spies struct {
 	Calls  map[string]int
 	N      int // fallible invocations so far
 	FailAt int // 1-based index of the invocation that fails (0 = none)
 	Fault  *InjectedFault
+	Outer  error    // what the failing callback actually returned: Fault itself or a CallbackError around it
 	Kinds  []string // kind/name of every fallible invocation, in order
 	Yield  bool     // spies are scheduling points
 }
@@ -39,9 +49,25 @@ func (s *Spies) hit(kind, id string) error {
 	}
 	if s.FailAt != 0 && s.N == s.FailAt {
 		s.Fault = &InjectedFault{K: s.N}
-		return s.Fault
+		s.Outer = s.Fault
+		if s.N%2 == 1 {
+			s.Outer = &CallbackError{Op: kind + " " + id, Err: s.Fault}
+		}
+		return s.Outer
 	}
 	return nil
+}
+
+// failValue is the result a failing callback returns next to its error: nil, the zero value or a
+// partial result (`return "", err` is at least as common as `return nil, err`).
+func (s *Spies) failValue(pass interface{}) interface{} {
+	switch s.N % 3 {
+	case 0:
+		return nil
+	case 1:
+		return ""
+	}
+	return pass
 }
 
 func (s *Spies) counts() string {
@@ -76,10 +102,10 @@ func toStr(v interface{}) string { return fmt.Sprint(v) }
 // policy plus the harness callbacks and a few deterministic built-ins.
 func installSandbox(e *twig.Engine) {
 	p := twig.NewDefaultSecurityPolicy()
-	for _, f := range []string{"spy", "tick", "max", "min", "range", "length"} {
+	for _, f := range []string{"spy", "tick", "max", "min", "range", "length", "late_fn"} {
 		p.AllowedFunctions[f] = true
 	}
-	for _, f := range []string{"spyf", "json_encode", "keys", "merge", "replace", "url_encode", "round", "number_format"} {
+	for _, f := range []string{"spyf", "late_f", "json_encode", "keys", "merge", "replace", "url_encode", "round", "number_format"} {
 		p.AllowedFilters[f] = true
 	}
 	e.EnableSandbox(p)
@@ -111,13 +137,19 @@ func installGlobals(e *twig.Engine) *GlobalData {
 func installSpies(e *twig.Engine, h *spyHub) {
 	installSandbox(e)
 	installGlobals(e)
+	e.AddFunction("late_fn", func(args ...interface{}) (interface{}, error) { return "<fn0>", nil })
+	e.AddFilter("late_f", func(v interface{}, args ...interface{}) (interface{}, error) { return toStr(v) + "~f0", nil })
 	e.AddFunction("spy", func(args ...interface{}) (interface{}, error) {
 		id := "?"
 		if len(args) > 0 {
 			id = toStr(args[0])
 		}
 		if err := h.cur().hit("function", id); err != nil {
-			return nil, err
+			var pass interface{} = "partial"
+			if len(args) > 1 {
+				pass = args[1]
+			}
+			return h.cur().failValue(pass), err
 		}
 		if len(args) > 1 {
 			return args[1], nil
@@ -130,7 +162,7 @@ func installSpies(e *twig.Engine, h *spyHub) {
 			id = toStr(args[0])
 		}
 		if err := h.cur().hit("filter", id); err != nil {
-			return nil, err
+			return h.cur().failValue(v), err
 		}
 		return v, nil
 	})
@@ -140,7 +172,7 @@ func installSpies(e *twig.Engine, h *spyHub) {
 			id = toStr(args[0])
 		}
 		if err := h.cur().hit("test", id); err != nil {
-			return false, err
+			return h.cur().N%2 == 0, err
 		}
 		return len(toStr(v))%2 == 0, nil
 	})
